@@ -290,6 +290,9 @@ _BD = ('ONE concrete transcript (34 codons) with 3 concrete frameshifting deleti
        'max_length UNBOUNDED symbolic integers')
 c02_traversal_limits_d0 = _mk('C02', CASE_D, 'c02_traversal_limits_d0', 0, _BD, ('quick', 'thorough'))
 c02_traversal_limits_d1 = _mk('C02', CASE_D, 'c02_traversal_limits_d1', 1, _BD, ('thorough',))
+# the comparison is an equality: code -1 (a definitional peptide is missing) is the C01 direction of the same cases
+c01_traversal_limits_d0 = _mk('C01', CASE_D, 'c01_traversal_limits_d0', 0, _BD, ('quick', 'thorough'))
+c01_traversal_limits_c0 = _mk('C01', CASE_C, 'c01_traversal_limits_c0', 0, _BC, ('quick', 'thorough'))
 
 
 def _set_order(case, flags):
